@@ -7,6 +7,7 @@ import (
 	"verif/engine/explore"
 	"verif/engine/harness"
 	"verif/engine/memnet"
+	"verif/engine/pgproto"
 	"verif/engine/script"
 
 	"context"
@@ -105,6 +106,13 @@ func c15Corpus() []c04Session {
 		}
 		out = append(out, s)
 	}
+	// a handler serving a static catalogue (one declared parameter list for all connections), with and without
+	// types pre-declared by the client
+	st := pgproto.Startup("user", "u")
+	out = append(out,
+		c04Session{Name: "plain / static statement, types pre-declared in Parse", Segs: [][]byte{st, pgproto.Parse("s", "static q", 23, 0, 20), pgproto.Describe('S', "s"), pgproto.Bind("", "s", nil, [][]byte{[]byte("1"), []byte("b"), []byte("3")}, nil), pgproto.Execute("", 0), pgproto.Sync()}},
+		c04Session{Name: "plain / static statement", Segs: [][]byte{st, pgproto.Parse("s", "static q"), pgproto.Describe('S', "s"), pgproto.Sync()}},
+	)
 	return out
 }
 
